@@ -14,6 +14,33 @@ claim('C16',
       'Trusted: CrossHair regex/str/bytes models, CPython decoding inside ast.parse (outside the claim; C16d runs it concretely). '
       'ast.parse/unparse stubbed in C16a/b.',
       'CrossHair symbolic execution of minify/_find_shebang/do_minify, z3 decides each path', 'DESIGN.md 4/C16, 8.4')
+claim('C13',
+      'Flags -> namespace for all 2^19 flag subsets is one z3 query over the action table read from the real parser object '
+      '(documented table written from the docs); namespace -> minify keywords, argument validation and preserve-list '
+      'splitting are bounded symbolic executions of the real do_minify/parse_args/main. Right level: the space is 2^19 and '
+      'tests pass no --no-* flag at all; the solver covers every subset.',
+      'Trusted: the hand model of argparse store_true/store_false/append semantics (validated every run on solver-chosen witness '
+      'subsets against the real parser), the documented flag table in vf/smtq.py, CrossHair/z3, the in-memory CLI environment. '
+      'Bytes written for a given API result are decided under C14.',
+      'z3 query over the real argparse table + CrossHair symbolic execution of do_minify/parse_args/main', 'DESIGN.md 4/C13')
+claim('C15',
+      'Bounded symbolic execution of the real main()/source_modules() over an in-memory tree whose file names are symbolic '
+      'strings, with a symbolic failure position/kind and benefit pattern: the end state of every file is its original bytes '
+      'or the stub\'s minified bytes, only selected files are opened for writing, nothing after the failing file is touched. '
+      'Right level: the suffix test and the failure ordering are the whole mechanism; names like ".py", "x.pyw", "a.pyc" are '
+      'found by the solver, not sampled.',
+      'Trusted: in-memory open/os/sys stubs (vf/clienv.py; write-open truncates, read-only raises before truncating), CrossHair/z3. '
+      'do_minify is the environment here (decided under C13/C14). A crash inside f.write is outside the fault model.',
+      'CrossHair symbolic execution of main/source_modules, z3 decides each path', 'DESIGN.md 4/C15')
+claim('C12',
+      'Every eval() site of python_minifier is rebound to a reference recogniser/decoder of closed literal text and the real '
+      'quoting code (MiniString, f_string.Str/Bytes, OuterFString.str_for) and FoldConstants are executed symbolically: for every '
+      'string in bound (all of Unicode; surrogates/NUL/quotes/backslashes via a stated alphabet) no text containing a token '
+      'other than a literal reaches eval. A site inventory of /repo/src is recomputed each run. Right level: the inputs that '
+      'could break out of the quoting are rare and adversarial; the solver searches for them instead of sampling.',
+      'Trusted: R-lit (vf/rlit.py, validated every run against the CPython parser on thousands of texts), CrossHair/z3, CPython\'s '
+      'ast.parse/compile (C code; parses but does not execute). Bound: |s| <= 2/3. MiniBytes is dead code (checked: no references).',
+      'CrossHair symbolic execution of the quoting code with eval replaced by a closed-literal recogniser; AST site inventory', 'DESIGN.md 4/C12')
 claim('C02',
       'Bounded symbolic execution of the real printers: every expression slot x child kind (depth 2; depth 3 in thorough) and every '
       'statement template of a bounded grammar is printed by the real unparse()/minify(all off) and re-parsed by CPython, compared '
@@ -30,14 +57,14 @@ claim('C03',
       'definitions and the result is compilable. Right level: the failing inputs are name coincidences (a variable called A, two holes '
       'equal, a hole equal to a builtin) that no test samples; the solver enumerates the equality classes.',
       'Trusted: R-scope (validated against symtable on the stdlib), CrossHair/z3, the 13-name builtin stub, hash/repr stubs in '
-      'rename_literals, deterministic AST hash. Bounds: 40 skeletons (quick: seeded rotation of 20), 3 symbolic names of length 1/3.',
+      'rename_literals, deterministic AST hash. Bounds: 44 scope skeletons, 3 symbolic names of length 1 and 3 (quick: every skeleton, one option combination per length rotating with the seed, third name pinned for length 3; thorough: two option combinations, all names free).',
       'CrossHair symbolic execution of the rename pipeline with symbolic identifiers; reference scope resolver as oracle', 'DESIGN.md 4/C03, 8.3')
 claim('C04',
       'Same pipeline and symbolic identifiers as C03; the postcondition is that attribute names, keyword-argument names, import names, '
       'class-body names, keyword-passable parameters, dunder names and unbound names keep their spelling, and that module-level names '
       'are unchanged / underscore-prefixed when rename_globals is off; plus the arg_rename_in_place kernel with symbolic decorator and '
       'parameter names.',
-      'Trusted: as C03. Bounds: 40 skeletons (quick: 18), names of length 1/3; decorator |dec| <= 11.',
+      'Trusted: as C03. Bounds: 44 skeletons (quick: walrus_nested_module + a seeded rotation of 9), names of length 1/3; decorator |dec| <= 11.',
       'CrossHair symbolic execution of the rename pipeline and of rename/util.arg_rename_in_place', 'DESIGN.md 4/C04, 8.3')
 claim('C05',
       'Each real transformer is run alone on small neighbourhoods whose shape is a structure parameter and whose names/constants are '
